@@ -1,0 +1,226 @@
+//go:build verif
+
+// Contracts for the verifier in /verif (comment-only; adds no code).
+package analysis
+
+//@ safetyprop C18
+
+// The shape of a tree the parser yields for ANY text (ewf): every child may be missing, a list may hold nil
+// entries, but an interface never holds a nil pointer, and the fields below are never nil.
+// T3 (assumed, about the generated recogniser and its error recovery): a call has its name token (the token that
+// selects the rule), a declaration is only entered on its type token, and an account source / destination
+// alternative is only predicted on the first token of its expression.
+//@ ewfnonnull FnCall.Caller VarDeclaration.Type SourceAccount.ValueExpr DestinationAccount.ValueExpr SourceOverdraft.Address
+// proved by the parser contracts (parseRatio, parsePercentageRatio): a ratio literal has both numbers
+//@ ewfnonnull RatioLiteral.Numerator RatioLiteral.Denominator
+
+// the state of a check in progress: every map exists; declarations that are registered have a name and a type
+//@ spec declOk(d) = d.Name != nil && d.Type != nil
+//@ spec resOk(res) = res != nil && res.emptiedAccount != nil && res.declaredVars != nil && res.unusedVars != nil && res.varResolution != nil && res.fnCallResolution != nil && forallstr(k, has(res.declaredVars, k) ==> declOk(res.declaredVars[k])) && forallref(f, has(res.fnCallResolution, f) ==> typeis(res.fnCallResolution[f], StatementFnCallResolution) || typeis(res.fnCallResolution[f], VarOriginFnCallResolution))
+//@ spec exprOk(e) = e == nil || ewf(e)
+
+//@ func (*CheckResult).assertHasType
+//@   requires [state] resOk(res)
+//@   requires [node] requiredType != TypeAny && requiredType != actualType ==> ewf(lit)
+//@   ensures [state] resOk(res)
+//@   modifies res.Diagnostics
+
+//@ func (*CheckResult).staticTypeOf
+//@   requires [state] resOk(res)
+//@   requires [node] exprOk(expr)
+//@   ensures [nil-any] expr == nil ==> result == TypeAny
+//@   modifies nothing
+
+//@ func (*CheckResult).checkExpression
+//@   requires [state] resOk(res)
+//@   requires [node] exprOk(lit)
+//@   ensures [state] resOk(res)
+//@   modifies res.Diagnostics, entries(res.varResolution), entries(res.unusedVars)
+
+//@ func (*CheckResult).checkSentValue
+//@   requires [state] resOk(res)
+//@   requires [node] sentValue == nil || ewf(sentValue)
+//@   ensures [state] resOk(res)
+//@   modifies res.Diagnostics, entries(res.varResolution), entries(res.unusedVars)
+
+//@ func (*CheckResult).checkSource
+//@   requires [state] resOk(res)
+//@   requires [node] source == nil || ewf(source)
+//@   ensures [state] resOk(res)
+//@   ensures [scope-restored] res.emptiedAccount == old(res.emptiedAccount) && res.unboundedSend == old(res.unboundedSend)
+//@   modifies res.Diagnostics, entries(res.varResolution), entries(res.unusedVars), res.emptiedAccount, res.unboundedAccountInSend, res.unboundedSend, entries(res.emptiedAccount)
+//@   loop 1
+//@     invariant [state] resOk(res)
+//@     invariant [scope] res.emptiedAccount == old(res.emptiedAccount) && res.unboundedSend == old(res.unboundedSend)
+//@   loop 2
+//@     invariant [state] resOk(res)
+//@     invariant [scope] res.emptiedAccount == old(res.emptiedAccount) && res.unboundedSend == old(res.unboundedSend)
+//@     invariant [sum] sum != nil
+
+//@ func (*CheckResult).checkDestination
+//@   requires [state] resOk(res)
+//@   requires [node] destination == nil || ewf(destination)
+//@   ensures [state] resOk(res)
+//@   modifies res.Diagnostics, entries(res.varResolution), entries(res.unusedVars)
+//@   loop 1
+//@     invariant [state] resOk(res)
+//@   loop 2
+//@     invariant [state] resOk(res)
+//@     invariant [sum] sum != nil
+
+//@ func (*CheckResult).checkKeptOrDestination
+//@   requires [state] resOk(res)
+//@   requires [node] target == nil || ewf(target)
+//@   ensures [state] resOk(res)
+//@   modifies res.Diagnostics, entries(res.varResolution), entries(res.unusedVars)
+
+//@ func (*CheckResult).checkHasBadAllotmentSum
+//@   requires [state] resOk(res)
+//@   ensures [state] resOk(res)
+//@   modifies res.Diagnostics
+
+// the copy of the emptied-accounts set made on entering a capped source (inlined at its call sites)
+//@ func (*CheckResult).withCloneEmptyAccount
+//@   inline
+//@   loop 1
+//@     invariant [copy] res != nil && res.emptiedAccount != nil && res.emptiedAccount != initial && sinceentry(ref(res.emptiedAccount))
+//@     invariant [source-kept] forallstr(k, has(initial, k) == atloop(has(initial, k)))
+//@     modifies entries(res.emptiedAccount)
+
+//@ func (*CheckResult).checkFnCallArity
+//@   requires [state] resOk(res)
+//@   requires [node] fnCall != nil && ewf(*fnCall)
+//@   ensures [state] resOk(res)
+//@   modifies res.Diagnostics, entries(res.varResolution), entries(res.unusedVars)
+//@   loop 1
+//@     invariant [args] forall(i, 0, len(validArgs), ewf(validArgs[i]))
+//@   loop 2
+//@     invariant [state] resOk(res)
+//@   loop 3
+//@     invariant [state] resOk(res)
+
+//@ func (*CheckResult).checkVarType
+//@   requires [state] resOk(res)
+//@   ensures [state] resOk(res)
+//@   modifies res.Diagnostics
+
+//@ func (*CheckResult).checkDuplicateVars
+//@   requires [state] resOk(res)
+//@   requires [decl] declOk(decl)
+//@   ensures [state] resOk(res)
+//@   modifies res.Diagnostics, entries(res.declaredVars), entries(res.unusedVars)
+
+//@ func (*CheckResult).checkVarOrigin
+//@   requires [state] resOk(res)
+//@   requires [node] ewf(fnCall) && ewf(decl) && decl.Origin != nil
+//@   ensures [state] resOk(res)
+//@   modifies res.Diagnostics, entries(res.varResolution), entries(res.unusedVars), entries(res.fnCallResolution)
+
+//@ func (*CheckResult).checkStatement
+//@   requires [state] resOk(res)
+//@   requires [node] statement == nil || ewf(statement)
+//@   ensures [state] resOk(res)
+//@   modifies res.Diagnostics, entries(res.varResolution), entries(res.unusedVars), entries(res.fnCallResolution), res.emptiedAccount, res.unboundedAccountInSend, res.unboundedSend
+
+//@ func (*CheckResult).check
+//@   requires [state] resOk(res)
+//@   requires [program] ewf(res.Program)
+//@   ensures [state] resOk(res)
+//@   modifies res.Diagnostics, res.emptiedAccount, res.unboundedAccountInSend, res.unboundedSend, entries(res.varResolution), entries(res.unusedVars), entries(res.fnCallResolution), entries(res.declaredVars)
+//@   loop 1
+//@     invariant [state] resOk(res)
+//@   loop 2
+//@     invariant [state] resOk(res)
+//@   loop 3
+//@     invariant [state] resOk(res)
+
+//@ func newCheckResult
+//@   ensures [state] result.emptiedAccount != nil && result.declaredVars != nil && result.unusedVars != nil && result.varResolution != nil && result.fnCallResolution != nil && len(result.Diagnostics) == 0 && fresh(ref(result.emptiedAccount)) && fresh(ref(result.declaredVars)) && fresh(ref(result.unusedVars)) && fresh(ref(result.varResolution)) && fresh(ref(result.fnCallResolution)) && result.Program == program && forallstr(k, !has(result.declaredVars, k)) && forallref(f, !has(result.fnCallResolution, f))
+//@   modifies nothing
+
+//@ func CheckProgram
+//@   requires [program] ewf(program)
+//@   modifies nothing
+
+// CheckSource = Parse, the parse errors as diagnostics, then the check
+//@ func CheckSource
+//@   modifies allof(parser.ErrorListener), allelems(parser.ParserError)
+//@   loop 1
+//@     invariant [state] resOk(addr(res))
+
+//@ func parsingErrorToDiagnostic
+//@   modifies nothing
+
+// ---------------------------------------------------------------- hover, definition, symbols
+
+//@ func hoverOnExpression
+//@   requires [node] exprOk(lit)
+//@   ensures [node-or-nil] absent(result) ==> result == nil
+//@   modifies nothing
+
+//@ func hoverOnSource
+//@   requires [node] source == nil || ewf(source)
+//@   ensures [node-or-nil] absent(result) ==> result == nil
+//@   modifies nothing
+//@   loop 1
+//@     invariant [node] ewf(source)
+//@   loop 2
+//@     invariant [node] ewf(source)
+
+//@ func hoverOnKeptOrDestination
+//@   requires [node] inorderClause == nil || ewf(inorderClause)
+//@   ensures [node-or-nil] absent(result) ==> result == nil
+//@   modifies nothing
+
+//@ func hoverOnDestination
+//@   requires [node] destination == nil || ewf(destination)
+//@   ensures [node-or-nil] absent(result) ==> result == nil
+//@   modifies nothing
+
+//@ func hoverOnFnCall
+//@   requires [node] ewf(callStatement)
+//@   ensures [node-or-nil] absent(result) ==> result == nil
+//@   modifies nothing
+
+//@ func hoverOnSentValue
+//@   requires [node] sentValue == nil || ewf(sentValue)
+//@   ensures [node-or-nil] absent(result) ==> result == nil
+//@   modifies nothing
+
+//@ func hoverOnSaveStatement
+//@   requires [node] ewf(saveStatement)
+//@   ensures [node-or-nil] absent(result) ==> result == nil
+//@   modifies nothing
+
+//@ func hoverOnSendStatement
+//@   requires [node] ewf(sendStatement)
+//@   ensures [node-or-nil] absent(result) ==> result == nil
+//@   modifies nothing
+
+//@ func hoverOnVar
+//@   requires [node] ewf(varDecl)
+//@   ensures [node-or-nil] absent(result) ==> result == nil
+//@   modifies nothing
+
+//@ func HoverOn
+//@   requires [program] ewf(program)
+//@   ensures [node-or-nil] absent(result) ==> result == nil
+//@   modifies nothing
+
+//@ func GotoDefinition
+//@   requires [program] ewf(program)
+//@   requires [resolution] forallref(v, has(checkResult.varResolution, v) ==> declOk(checkResult.varResolution[v]))
+//@   modifies nothing
+
+//@ func (*CheckResult).GetSymbols
+//@   requires [state] resOk(r)
+//@   modifies nothing
+//@   loop 1
+//@     invariant [state] resOk(r)
+
+//@ func (CheckResult).ResolveVar
+//@   ensures [found] result != nil ==> has(r.varResolution, v) && result.Name == r.varResolution[v].Name && result.Type == r.varResolution[v].Type
+//@   modifies nothing
+
+//@ func (CheckResult).ResolveBuiltinFn
+//@   modifies nothing
